@@ -59,7 +59,13 @@ def cells(tier):
         out.append({'backend': 'dict', 'n': 2, 'rounds': 1, 'factory_none': 1,
                     'hdr_only': 1, 'opts': ['permA', 'permB', 'tempA'],
                     'kinds': ['mapping', 'permanent']})
+        out.append({'backend': 'dict', 'n': 2, 'rounds': 1,
+                    'bounce_queue': 'queue', 'opts': ['ok', 'permA', 'tempA'],
+                    'kinds': ['mapping', 'permanent']})
     else:
+        out.append({'backend': 'disk', 'n': 2, 'rounds': 2,
+                    'bounce_queue': 'queue', 'opts': ['ok', 'permA', 'tempA'],
+                    'kinds': ['mapping', 'transient', 'permanent']})
         for b in ('dict', 'disk', 'redis', 'cloud'):
             out.append({'backend': b, 'n': 3, 'rounds': 2, 'opts': OPTS,
                         'kinds': ['mapping', 'transient', 'permanent']})
